@@ -95,7 +95,7 @@ func c13CheckStream(a vh.Args, o *vh.Oracle, r *vh.Result, c *c13Case, id int) e
 		c13TarExtraRoots = func(k int) []string { return at[k] }
 		tb, emitted, err = c13BuildTarOpt(nodes, false, true)
 		c13TarExtraRoots = nil
-	case "addroot-dot":
+	case "addroot-dot", "longnames":
 		tb, emitted, err = c13BuildTarOpt(nodes, false, false)
 	case "ungrouped":
 		// a member of a subdirectory comes after the members that follow that subdirectory
@@ -236,7 +236,11 @@ func c13CheckStream(a vh.Args, o *vh.Oracle, r *vh.Result, c *c13Case, id int) e
 	if !bytes.Equal(cli, lib) {
 		r.Fail("corr", "corr:C13/cli-vs-library", fmt.Sprintf("%s: `desync tar` and desync.Tar(NewTarReader) wrote different archives (%d vs %d bytes)", what, len(cli), len(lib)), c13Slim(c))
 	}
-	out, _, err := c13Validate(catar, "--unsorted-ok")
+	vargs := []string{"--unsorted-ok"}
+	if c.Source == "longnames" {
+		vargs = append(vargs, "--long-names-ok") // the hash of the WHOLE name is still required
+	}
+	out, _, err := c13Validate(catar, vargs...)
 	if err != nil {
 		return err
 	}
@@ -262,6 +266,9 @@ func c13CheckStream(a vh.Args, o *vh.Oracle, r *vh.Result, c *c13Case, id int) e
 	if out.OK && len(emitted) > 0 {
 		mc := *c
 		mc.Source = "tar-unsorted"
+		if c.Source == "longnames" {
+			mc.Source = "tar-longnames"
+		}
 		if err := c13ModelArchive(o, r, &mc, work, catar, out, c13SpecFromNodes(exp, emitted)); err != nil {
 			return err
 		}
@@ -298,6 +305,38 @@ func c13RunStreams(a vh.Args, o *vh.Oracle, r *vh.Result, rng *vh.Rand, thorough
 	for _, roots := range []string{"0:./,./", "0:./,.,./.", "0:.,./", "2:./", "1:./,./", "-1:./", "-1:.,./", "0:./;2:.;-1:./."} {
 		nodes := c13FrontChild(c13SmallTree(rng.Fork()), rng.Bool())
 		if err := run(&c13Case{Source: "addroot-roots", AddRoot: true, Nodes: nodes, Roots: roots}); err != nil {
+			return err
+		}
+	}
+	// names of 255 / 256 / 257 / 300 / 1000 / 5000 bytes (PAX), two of them sharing their first 255
+	// bytes, one of them a directory: FILENAME and the goodbye hash are of the whole name
+	{
+		nodes := []c13Node{{Type: "dir", Mode: 0755, Mtime: 1600000000 * 1e9}}
+		mk := func(n int, tail string) string {
+			b := make([]byte, n)
+			for i := range b {
+				b[i] = "abcdefghijklmnopqrstuvwxyz0123456789"[(i*7+n)%36]
+			}
+			copy(b[n-len(tail):], tail)
+			return vh.Hex(b)
+		}
+		common := make([]byte, 255)
+		for i := range common {
+			common[i] = 'p'
+		}
+		names := []string{mk(255, "-a"), mk(256, "-b"), mk(257, "-c"), mk(300, "-d"), mk(1000, "-e"),
+			vh.Hex(append(append([]byte{}, common...), []byte("-first")...)), vh.Hex(append(append([]byte{}, common...), []byte("-second")...))}
+		if thorough || rng.Chance(1, 2) {
+			names = append(names, mk(5000, "-f"))
+		}
+		for _, nm := range names {
+			nodes = append(nodes, c13Node{Path: []string{nm}, Type: "file", Mode: 0644, Mtime: 1600000000 * 1e9, Size: rng.Intn(20), Seed: rng.U64()})
+		}
+		dn := mk(400, "-dir")
+		nodes = append(nodes, c13Node{Path: []string{dn}, Type: "dir", Mode: 0755, Mtime: 1600000000 * 1e9},
+			c13Node{Path: []string{dn, mk(260, "-in")}, Type: "file", Mode: 0600, Mtime: 1600000000 * 1e9, Size: 3, Seed: 1},
+			c13Node{Path: []string{dn, vh.Hex([]byte("short"))}, Type: "symlink", Mode: 0777, Mtime: 1600000000 * 1e9, Target: vh.Hex([]byte("x"))})
+		if err := run(&c13Case{Source: "longnames", Nodes: nodes}); err != nil {
 			return err
 		}
 	}
